@@ -302,6 +302,16 @@ class Translator:
             "np.sign": sp.sign, "np.abs": sp.Abs, "abs": sp.Abs, "np.fabs": sp.Abs, "math.fabs": sp.Abs,
             "float": lambda x: x, "int": lambda x: x, "np.float64": lambda x: x, "np.asarray": lambda x: x, "np.array": lambda x: x,
         }
+        if f in ("np.diag_indices", "numpy.diag_indices") and len(args) == 1 and not kw:
+            n_ = self.tr(args[0])
+            if getattr(n_, "is_Integer", False):
+                r_ = tuple(sp.Integer(i) for i in range(int(n_)))
+                return (r_, r_)
+        if isinstance(e.func, ast.Attribute) and e.func.attr in ("sum", "mean") and not args and not kw:
+            x_ = self.tr(e.func.value)
+            if isinstance(x_, (tuple, list)) and x_:
+                tot = sum(x_[1:], x_[0])
+                return tot if e.func.attr == "sum" else tot / len(x_)
         if f in ("math.prod", "np.prod", "numpy.prod") and len(args) == 1 and not kw and isinstance(args[0], ast.Call) and norm(args[0].func) == "range" and 1 <= len(args[0].args) <= 2:
             # a product over a range whose length is a literal once the case parameters are substituted
             ra = [self.tr(a) for a in args[0].args]
@@ -433,10 +443,25 @@ class Translator:
             base = self.tr(t.value)
             if _is_mat(base):
                 idx = t.slice
-                if isinstance(idx, ast.Tuple) and len(idx.elts) == 2:
-                    i, j = (int(self.tr(x)) for x in idx.elts)
-                    base[i, j] = val
-                    return
+                try:
+                    if isinstance(idx, ast.Tuple) and len(idx.elts) == 2:
+                        iv, jv = (self.tr(x) for x in idx.elts)
+                    else:
+                        both = self.tr(idx)  # e.g. np.diag_indices(3): a pair of index tuples
+                        iv, jv = both if isinstance(both, tuple) and len(both) == 2 else (None, None)
+                    if isinstance(iv, (tuple, list)) and isinstance(jv, (tuple, list)) and len(iv) == len(jv):
+                        # fancy indexing: M[(i0, i1, …), (j0, j1, …)] = values (element-wise) or one scalar
+                        vals = list(val) if isinstance(val, (tuple, list)) else [val] * len(iv)
+                        if len(vals) != len(iv):
+                            raise Unsupported(f"store `{norm(t)}`: {len(vals)} values for {len(iv)} positions")
+                        for a_, b_, v_ in zip(iv, jv, vals):
+                            base[int(a_), int(b_)] = v_
+                        return
+                    if iv is not None and jv is not None:
+                        base[int(iv), int(jv)] = val
+                        return
+                except TypeError as exc:
+                    raise Unsupported(f"store `{norm(t)}`: {exc}") from exc
             raise Unsupported(f"store `{norm(t)}`")
         elif isinstance(t, (ast.Tuple, ast.List)):
             if isinstance(val, (tuple, list)) and len(val) == len(t.elts):
